@@ -12,7 +12,7 @@ LEVEL = 'exploration'
 LEVEL_TEXT = ('Exploration over a catalogue of size-parameterised families (about 45 load, 20 dump): for sizes n, 2n, 4n (thorough: up to '
               '16n, random compositions, log-log slope) the number of call + c_call profile events during safe_load_all / safe_dump in the '
               'pure-Python pipeline is measured (sys.setprofile; deterministic, independent of machine load) and each doubling must cost '
-              'at most 2 x 1.10. Queue/buffer high-water marks from method hooks are recorded as supplementary evidence.')
+              'at most 2 x 1.10. Queue/buffer high-water marks from method hooks are recorded as supplementary evidence.' + ' The catalogue also has one long run inside a single token or line for every scalar style, indentation, comment, anchor, alias, tag and directive (about 100 load and 40 dump families in all).')
 LEVEL_NOTE = ('Counts function calls, the property\'s own unit: work done inside one C call (list.pop(0), slicing, str.join) is outside the '
               'metric and only visible in the recorded high-water marks. Families outside the catalogue are not covered.')
 TECHNIQUE = 'runtime monitoring: sys.setprofile call counting over doubling input sizes, per family'
